@@ -653,7 +653,8 @@ def hilberthuang_1d(infr, inam, freq_edges, mode='energy'):
     specs = np.zeros((len(freq_edges) - 1, infr.shape[1]))
 
     # Remove values outside the bin range
-    infr = infr.copy()  # Don't work in place on input freqs
+    # Don't work in place on input freqs - and work on floats, integer frequencies can't be marked with nans
+    infr = np.array(infr, dtype=float)
     outside_inds = (infr < freq_edges[0]) + (infr > freq_edges[-1])
     infr[outside_inds] = np.nan
 
